@@ -51,7 +51,8 @@ class Ctx:
         self.rng = random.Random(seed)
         self.t0 = time.time()
         self.notes = []
-        self.run_dir = os.path.join(BUILD, "run", prop)
+        tag = "" if REPO == "/repo" else "-" + hashlib.sha256(REPO.encode()).hexdigest()[:8]
+        self.run_dir = os.path.join(BUILD, "run", prop + tag)
         os.makedirs(self.run_dir, exist_ok=True)
 
     def quick(self):
